@@ -28,6 +28,10 @@ pub enum Op {
     Serde,
     /// `Bdd::from(nodes.clone())` replaces the store
     Rebuild,
+    /// the documented custom import: `Adf::from((VarContainer, Bdd::from(nodes), acs))`, store taken back out
+    AdfNodeList,
+    /// serde JSON round trip of a whole `Adf` holding the store + `Adf::fix_import`
+    AdfSerde,
 }
 
 #[derive(Clone, Debug, Serialize, Deserialize, PartialEq, Eq, Hash)]
@@ -55,6 +59,8 @@ pub fn op_strategy(rematerialise: bool) -> BoxedStrategy<Op> {
             30 => base,
             1 => Just(Op::Serde),
             1 => Just(Op::Rebuild),
+            1 => Just(Op::AdfNodeList),
+            1 => Just(Op::AdfSerde),
         ]
         .boxed()
     } else {
@@ -295,6 +301,32 @@ impl Shadow {
             }
             Op::Rebuild => {
                 self.bdd = Bdd::from(self.bdd.nodes.clone());
+                info.rematerialised = true;
+                self.after_rematerialise(&before_nodes)?;
+                return Ok(info);
+            }
+            Op::AdfNodeList => {
+                let adf = adf_bdd::adf::Adf::from((
+                    adf_bdd::datatypes::adf::VarContainer::default(),
+                    Bdd::from(self.bdd.nodes.clone()),
+                    vec![Term::TOP],
+                ));
+                self.bdd = adf.bdd;
+                info.rematerialised = true;
+                self.after_rematerialise(&before_nodes)?;
+                return Ok(info);
+            }
+            Op::AdfSerde => {
+                let adf = adf_bdd::adf::Adf::from((
+                    adf_bdd::datatypes::adf::VarContainer::default(),
+                    std::mem::replace(&mut self.bdd, Bdd::new()),
+                    vec![Term::TOP],
+                ));
+                let json = serde_json::to_string(&adf).map_err(|e| format!("serialise: {e}"))?;
+                let mut back: adf_bdd::adf::Adf =
+                    serde_json::from_str(&json).map_err(|e| format!("deserialise: {e}"))?;
+                back.fix_import();
+                self.bdd = back.bdd;
                 info.rematerialised = true;
                 self.after_rematerialise(&before_nodes)?;
                 return Ok(info);
